@@ -417,12 +417,12 @@ def run(chk):
 META = {
     "category": "other",
     "engine": "QN + TNA(axis tracking)",
-    "technique": "ast rules on quantum-number bookkeeping (centre alignment, label/charge co-transformation) + symbolic axis tracking through tensordot/moveaxis/reshape",
+    "technique": "abstract interpretation of add / apply / dot / conj_trans / scale on chains of abstract tensors (axis identities with distinct prime sizes, algebraic prefactor states); ast rules on quantum-number bookkeeping (centre alignment, label / charge co-transformation); tree product by the symbolic-tree run",
     "text": "Decides the structural clauses of C03 that make arithmetic correct in *any gauge*: labels of two operands are combined at one "
             "centre, labels and total charge transform together, merged bonds are ordered like their labels, prefactors are folded/conjugated "
             "consistently. These only bite when operands have different centres or operators carry charge, and only after a later "
             "canonicalisation - which is why tests miss them. Numerical agreement with dense algebra is not decided.",
     "note": "The forms of .qn writers (copy / negate / outer sum / direct sum) are classified syntactically; an unclassifiable writer stops the "
             "analysis (exit 2). Axis tracking handles literal axes only.",
-    "design_ref": "DESIGN.md 3.4, 3.2 (R5), 4 (C03)",
+    "design_ref": "DESIGN.md 3.4, 3.2 (R5), 4 (C03); as built: 9.1, 9.3, 9.8",
 }
